@@ -213,3 +213,42 @@ _orig_reset = reset
 def reset() -> None:  # noqa: F811
     _orig_reset()
     _KEEP.clear()
+
+
+def make_source(seed: int = 0):
+    """A minimal valid scene source (xarray Dataset) with content derived from seed."""
+    import xarray as xr
+    rng = np.random.default_rng(seed)
+    nref, nw = 2, 3
+    return xr.Dataset(
+        {"x": ("ref", rng.random(nref) * 10), "y": ("ref", rng.random(nref) * 10),
+         "weight": ("ref", rng.random(nref) + 10), "flux": (("ref", "wavelength"), rng.random((nref, nw)))},
+        coords={"ref": np.arange(nref), "wavelength": [500.0, 600.0, 700.0]},
+        attrs={"right_ascension": "56.75 deg", "declination": "24.1167 deg", "fov_radius": "0.5 deg"},
+    )
+
+
+def writer2(detector, **kwargs) -> None:
+    """Like writer, plus 'scene' (adds a source), 'data' (adds a processed-data array) and
+    'pixel+' (adds to the pixel array instead of assigning)."""
+    import xarray as xr
+    plan = kwargs.get("plan") or {}
+    seed = kwargs.get("seed", 0)
+    step = int(detector.pipeline_count)
+    names = plan.get(str(step), plan.get("*", []))
+    rest = [n for n in names if n not in ("scene", "data", "pixel+")]
+    sub = dict(kwargs)
+    sub["plan"] = {str(step): rest}
+    writer(detector, **sub)
+    if "scene" in names:
+        detector.scene.add_source(make_source(seed * 1000 + step))
+    if "data" in names:
+        arr = gen_array(detector.geometry.shape, "float64", (seed, step, 9))
+        detector.data[f"/probe/step{step}"] = xr.DataArray(arr, dims=["y", "x"])
+    if "pixel+" in names:
+        arr = gen_array(detector.geometry.shape, "float64", (seed, step, 3))
+        try:
+            cur = detector.pixel.array
+        except ValueError:
+            cur = 0.0
+        detector.pixel.array = cur + arr
